@@ -189,6 +189,11 @@ Definition res_empty (r : resolutions) : bool :=
 
 Inductive rkind := RTimeout | RSuccess | RInContest | ROutContest | RAnchor | RBreach | RCommit.
 
+(* boltArbitratorLog.writeResolver: the anchor resolver has no ResolverKey
+   and is not persisted, so it never counts as an unresolved contract. *)
+Definition persisted (p : rkind * N) : bool :=
+  match fst p with RAnchor => false | _ => true end.
+
 Definition has_res (l : list Z) (h : htlc) : bool := existsb (Z.eqb (h_out h)) l.
 
 Definition mk_resolvers (k : rkind) (res : list Z) (l : list htlc) : list (rkind * N) :=
@@ -331,7 +336,7 @@ Section Machine.
           if Nat.eqb unres 0 then (SFullyResolved, no_eff) else (SWaitingFullResolution, no_eff)
         | _ => state_step st height t conf active logres
         end in
-      let unres' := (unres + length (f_resolvers ef))%nat in
+      let unres' := (unres + length (filter persisted (f_resolvers ef)))%nat in
       let acc' := eff_app acc ef in
       match nx, st with
       | SError, _ => Some (st, unres', acc')          (* error: state not committed *)
